@@ -127,7 +127,9 @@ func DHTGet(params DHTGetParams) (*DHTGetResult, error) {
 			return nil, true
 		}
 		res.NumResponded++
-		res.Closest = node.ID
+		if res.Closest.IsZero() || DistanceLt(params.Key, node.ID[:], res.Closest[:]) {
+			res.Closest = node.ID
+		}
 		if resp.Value != nil && params.Validate(resp.Value) {
 			res.Value = resp.Value
 			res.From = node.ID
@@ -178,7 +180,7 @@ func DHTPut(params DHTPutParams) (*DHTPutResult, error) {
 		res.Responded++
 		if resp.Accepted {
 			res.Accepted++
-			if DistanceLt(params.Key, node.ID[:], res.Closest[:]) {
+			if res.Closest.IsZero() || DistanceLt(params.Key, node.ID[:], res.Closest[:]) {
 				res.Closest = node.ID
 			}
 		}
